@@ -624,6 +624,39 @@ Proof.
   - unfold ta_al_pair. destruct (ta_access_list a); cbn [al_keys]; [apply u64_range|unfold two64; lia].
 Qed.
 
+Definition ta_al_list (a : tx_args) : list Z :=
+  match ta_access_list a with None => [] | Some al => al end.
+
+Theorem floor_gas_args_eq_spec a r :
+  zlen (ta_data a) < two64 ->
+  floor_data_gas a r =
+  res_of_unbounded
+    (spec_floor_data_gas (forks_of r) (ta_is_create a) (ta_is_self a) (ta_has_value a)
+       (count_zero (ta_data a)) (zlen (ta_data a) - count_zero (ta_data a))
+       (u64 (zlen (ta_al_list a))) (u64 (storage_keys (ta_al_list a)))).
+Proof.
+  intros Hl. unfold floor_data_gas. fold (ta_al_list a).
+  pose proof (count_zero_bounds (ta_data a)) as Hc.
+  assert (Hlen : 0 <= zlen (ta_data a)) by (unfold zlen; lia).
+  rewrite (u64_id (zlen (ta_data a))) by lia. rewrite (u64_id (count_zero (ta_data a))) by lia.
+  apply floor_gas_eq_spec; try lia; apply u64_range.
+Qed.
+
+(* the access-list projections are the true counts when they fit *)
+Lemma storage_keys_sum al :
+  Forall (fun n => 0 <= n) al -> fold_right Z.add 0 al < two63 ->
+  storage_keys al = fold_right Z.add 0 al.
+Proof.
+  intros Hpos Hsum. unfold storage_keys.
+  assert (G : forall acc, 0 <= acc -> acc + fold_right Z.add 0 al < two63 ->
+              fold_left (fun sum n => i64 (sum + n)) al acc = acc + fold_right Z.add 0 al).
+  { induction Hpos as [|n l Hn Hl IH]; intros acc Hacc Hb; cbn [fold_left fold_right] in *; [lia|].
+    assert (0 <= fold_right Z.add 0 l).
+    { clear - Hl. induction Hl; cbn [fold_right]; lia. }
+    rewrite i64_id by (unfold two63 in *; lia). rewrite IH by lia. lia. }
+  rewrite G by lia. lia.
+Qed.
+
 (* ---------- base fee step bound ---------- *)
 Theorem basefee_step_bound c p bf r :
   is_london c (Some (h_number p)) = true ->
